@@ -100,6 +100,9 @@ class SigmaNull(SigmaType):
     def __eq__(self, other: Any) -> bool:
         return isinstance(other, self.__class__)
 
+    def __repr__(self) -> str:
+        return "SigmaNull()"
+
 
 @dataclass
 class SigmaExists(SigmaType):
@@ -775,7 +778,11 @@ class SigmaRegularExpression(SigmaType):
             for flag in self.flags:
                 flags |= self.sigma_to_python_flags[flag]
             re.compile(str(self.regexp), flags)
-        except re.error as e:
+        except (
+            re.error,
+            OverflowError,
+            RecursionError,
+        ) as e:  # too large repetition counts raise OverflowError, too deep nesting RecursionError
             raise SigmaRegularExpressionError(
                 f"Regular expression '{str(self.regexp)}' is invalid: {str(e)}"
             ) from e
